@@ -26,7 +26,10 @@ RULE = ("real FsDropInService on a scratch directory (real inotify) with a real 
         "non-numeric / overflowing / negative delays, failing second ruleset), interleaved with main-loop ticks "
         "(updateDropIns + prerun + runOnce) either at script positions (seq) or continuously from the main thread "
         "while a helper thread performs the file operations (par); families: startup, churn, par, rewrite-invalid, "
-        "badnum, recreate, reload-race, rename, partial, nodir, same-content (byte-identical valid content written "
+        "badnum, recreate, reload-race, rescan-race (directory re-created with several files inside, incl. large and "
+        "invalid ones; one to three of them deleted / replaced / renamed by a helper thread 0-4 ms into the tick "
+        "that re-registers and re-scans; the OOMD_VERIF yield point pauses the scanning thread up to 1-3 ms per "
+        "file), rename, partial, nodir, same-content (byte-identical valid content written "
         "again to the same or another name after invalid content / truncation / slow in-place rewrite / delete / "
         "rename away and back / directory re-creation; the general families also re-use earlier content with "
         "probability 0.2), realplugin (a real core plugin with arbitrary arguments is compiled "
@@ -93,6 +96,9 @@ def make_content(rng, cid, kind):
         r = rs_act(cid, 0, rng.choice([0, 1]))
         r[rng.choice(["post_action_delay", "prekill_hook_timeout"])] = rng.choice(["7", "0", " 12", 30])
         doc, targets = {"rulesets": [r]}, [int(r["name"][1])]
+    elif kind == "big":
+        r = {"name": "r0", "detectors": [["dg0"] + [det(cid * 100 + j % 10) for j in range(rng.randint(30, 80))]]}
+        doc, targets = {"rulesets": [r]}, [0]
     elif kind == "vempty":
         doc = rng.choice([{}, {"rulesets": []}, None, {"other": 1}])
     elif kind == "comment":
@@ -486,6 +492,60 @@ def gen_same_content(rng):
     return b.scenario(mode=rng.choice(["seq", "seq", "par"]), tick_us=rng.choice([0, 100, 1000]))
 
 
+def gen_rescan_race(rng):
+    """the directory is deleted and re-created with several files inside; the next tick re-registers the watch and
+    re-scans them on the main thread, and while that scan runs a helper thread deletes / replaces / renames one of
+    the files (seq mode with a background op 0-4 ms after the tick starts; or par mode).  The yield hook between
+    reading a file and scheduling it pauses the scanning thread up to 1-3 ms per file and the watcher not at all, so
+    the file operation falls inside the scan; large and invalid neighbours stretch parse + compile as well."""
+    b = Builder(rng, "rescan-race")
+    b.initial(rng.randint(0, 3))
+    names = rng.sample(NAMES[:8], rng.randint(2, 6))
+    b.ops.append({"op": "rmdir"})
+    b.ops.append({"op": "wait"})
+    if rng.random() < 0.3:
+        b.ops.append({"op": "tick"})
+    b.ops.append({"op": "mkdir"})
+    cur = {}
+    for n in names:
+        r = rng.random()
+        cur[n] = b.content(kind="big") if r < 0.2 else b.content(valid=False) if r < 0.35 else b.content(valid=True)
+        b.ops.append({"op": rng.choice(["write", "movein"]), "name": n, "cid": cur[n]})
+    victims = rng.sample(names, rng.randint(1, min(3, len(names))))
+    acts = []
+    for f in victims:
+        r = rng.random()
+        if r < 0.45:
+            acts.append({"op": rng.choice(["delete", "moveout"]), "name": f})
+        elif r < 0.75:
+            acts.append({"op": rng.choice(["write", "movein"]), "name": f, "cid": b.content(valid=True)})
+        elif r < 0.85:
+            acts.append({"op": "write", "name": f, "cid": b.content(valid=False)})
+        else:
+            # (a target no other operation of this scenario touches: background ops run in no fixed order)
+            free = [x for x in NAMES if x not in names and x not in [a.get("to") for a in acts]]
+            acts.append({"op": "rename", "from": f, "to": rng.choice(free)})
+    span = 700 * len(names)
+    if rng.random() < 0.75:
+        for a in acts:
+            b.ops.append({"op": "bg", "us": rng.randint(0, span + 1500), "do": a})
+        if rng.random() < 0.3:
+            b.ops.append({"op": "us", "n": rng.choice([100, 1000, 3000])})
+        b.ops.append({"op": "tick"})
+        mode = "seq"
+    else:
+        b.ops.append({"op": "us", "n": rng.randint(0, 3000)})
+        for a in acts:
+            b.ops.append(a)
+            b.ops.append({"op": "us", "n": rng.randint(0, 3000)})
+        mode = "par"
+    s = b.scenario(mode=mode, tick_us=rng.choice([0, 100, 500]))
+    s["yield_us"] = 0
+    s["yield_main_us"] = rng.choice([1000, 2000, 3000])
+    s["yield_watcher_us"] = rng.choice([0, 0, 0, 200])
+    return s
+
+
 def gen_reload_race(rng):
     """the directory is re-created and one or two names are rewritten again and again with different valid contents
     while the main thread ticks continuously: the re-registration's load of the existing files (main thread) overlaps
@@ -506,7 +566,7 @@ def gen_reload_race(rng):
     return s
 
 
-FAMILIES = {"startup": gen_startup, "realplugin": gen_realplugin, "same-content": gen_same_content, "reload-race": gen_reload_race, "churn": gen_churn, "par": lambda r: gen_churn(r, "par"),
+FAMILIES = {"rescan-race": gen_rescan_race, "startup": gen_startup, "realplugin": gen_realplugin, "same-content": gen_same_content, "reload-race": gen_reload_race, "churn": gen_churn, "par": lambda r: gen_churn(r, "par"),
             "rewrite-invalid": gen_rewrite_invalid, "badnum": gen_badnum, "recreate": gen_recreate,
             "rename": gen_rename, "partial": gen_partial, "nodir": gen_nodir,
             "long": lambda r: gen_churn(r, r.choice(["seq", "par"]), n=r.randint(40, 120))}
@@ -515,10 +575,10 @@ FAMILIES = {"startup": gen_startup, "realplugin": gen_realplugin, "same-content"
 def gen(rng, tier):
     n = {"quick": 2, "thorough": 50, "search": 3}[tier]
     plan = [("startup", 60), ("churn", 130), ("par", 130), ("rewrite-invalid", 60), ("badnum", 30), ("recreate", 90),
-            ("rename", 50), ("partial", 40), ("nodir", 30), ("long", 12), ("realplugin", 40), ("reload-race", 40), ("same-content", 90)]
+            ("rename", 50), ("partial", 40), ("nodir", 30), ("long", 12), ("realplugin", 40), ("reload-race", 40), ("same-content", 90), ("rescan-race", 150)]
     if tier == "search":
         plan = [("churn", 100), ("par", 100), ("rewrite-invalid", 80), ("recreate", 80), ("badnum", 40), ("startup", 40),
-                ("same-content", 80)]
+                ("same-content", 80), ("rescan-race", 150)]
     for fam, k in plan:
         for _ in range(k * n):
             yield FAMILIES[fam](rng)
@@ -526,7 +586,8 @@ def gen(rng, tier):
 
 # ------------------------------------------------------------------------------------------------
 def _fileops(s):
-    return [o for o in s.get("ops", []) if o["op"] not in ("tick", "wait", "us")]
+    ops = [o["do"] if o["op"] == "bg" else o for o in s.get("ops", [])]
+    return [o for o in ops if o["op"] not in ("tick", "wait", "us")]
 
 
 def nontrivial(s, t, v):
@@ -592,6 +653,7 @@ def shrink_candidates(s):
         yield dict(s, probe0=False)
     if s.get("yield_us"):
         yield dict(s, yield_us=0)
-    used = {str(o["cid"]) for o in ops if "cid" in o} | {str(c) for _, c in init}
+    used = {str(o["cid"]) for o in ops if "cid" in o} | {str(o["do"]["cid"]) for o in ops if "cid" in o.get("do", {})} \
+        | {str(c) for _, c in init}
     if len(used) < len(s["contents"]):
         yield dict(s, contents={k: v for k, v in s["contents"].items() if k in used})
